@@ -51,6 +51,9 @@ def base_program(pkg, layout="three", import_form="from_import", entry_data=Fals
     p["fns"][EMS]["ret"] = "empty_str"
     EMB = gen.add_fn(p, mid, "EMB", params=[("a", None)], const=38)
     p["fns"][EMB]["ret"] = "empty_bytes"
+    # a kept function whose result is text with \r\n and lone \r line ends
+    CRT = gen.add_fn(p, mid, "CRT", const=39, data_path="/text/crlf")
+    p["fns"][CRT]["ret"] = "crlf_str"
     # a kept call whose argument is a call written inside the argument list
     hn = gen.add_fn(p, mid, "hn", const=35)
     E4 = gen.add_fn(p, top, "E4", params=[("w", None)], const=36)
@@ -66,6 +69,7 @@ def base_program(pkg, layout="three", import_form="from_import", entry_data=Fals
         gen.s_keep("/e4", E4, [gen.callarg(hn)]),
         gen.s_call(EMS, []),
         gen.s_keep("/empty/bytes", EMB, [gen.lit("1")]),
+        gen.s_call(CRT, []),
     ]
     p["entry"] = main
     if setvar:
@@ -79,7 +83,7 @@ def base_program(pkg, layout="three", import_form="from_import", entry_data=Fals
         p["fns"][h2]["stmts"].append(gen.s_lazy_call())
     if with_ext:
         p["ext"] = {"pkg": pkg + "_ext", "const": 1, "var": "1", "comment": "c"}
-    p["_ids"] = {"h2": h2, "C": C, "h1": h1, "A": A, "B": B, "D": D, "E1": E1, "E2": E2, "E3": E3, "E3i": E3i, "E4": E4, "hn": hn, "EMS": EMS, "EMB": EMB, "main": main, "leaf": leaf, "mid": mid, "top": top}
+    p["_ids"] = {"h2": h2, "C": C, "h1": h1, "A": A, "B": B, "D": D, "E1": E1, "E2": E2, "E3": E3, "E3i": E3i, "E4": E4, "hn": hn, "EMS": EMS, "EMB": EMB, "CRT": CRT, "main": main, "leaf": leaf, "mid": mid, "top": top}
     return p
 
 
@@ -442,7 +446,7 @@ def random_program(rng, pkg, nfn=None, with_loads=False):
         fid = gen.add_fn(p, m, "rf%d" % i, params=params2, const=100 + i, data_path=new_path() if is_data else None)
         f = p["fns"][fid]
         if rng.random() < 0.3:
-            f["ret"] = "str"
+            f["ret"] = "str" if rng.random() < 0.75 else "crlf_str"
         for vid in vids:
             vmod = p["vars"][vid]["module"]
             if mods.index(vmod) <= mi and rng.random() < 0.25:
